@@ -17,7 +17,7 @@ from vmon.libutil import load_definition, monitored
 LEVEL = "exploration"
 SHARDS = {"quick": 16, "thorough": 16}
 KINDS = ("integer", "float", "enumerated", "boolean", "string", "binary", "abstime", "reltime")
-MUST = ["datasets", "cells.compared", "mode.raw", "mode.derived", "files.multi", "files.truncated_tail_before_next_file", "kwargs.skip_header_bytes", "definition.form.str-path", "definition.form.Path", "apids.multi", "polymorphic.rejected", "polymorphic.superset", "exotic_encodings.datasets", "reordered_fields.datasets", "manyrows.datasets", "files.form.generator", "files.form.iter", "files.form.tuple"] + [f"cells.{k}" for k in KINDS]
+MUST = ["datasets", "cells.compared", "mode.raw", "mode.derived", "files.multi", "files.truncated_tail_before_next_file", "packets.with_spare_bytes", "kwargs.skip_header_bytes", "definition.form.str-path", "definition.form.Path", "apids.multi", "polymorphic.rejected", "polymorphic.superset", "exotic_encodings.datasets", "reordered_fields.datasets", "manyrows.datasets", "files.form.generator", "files.form.iter", "files.form.tuple"] + [f"cells.{k}" for k in KINDS]
 RULE = ("case = (flat definition: abstract root + one concrete child container per APID, each with a fixed list of "
         "parameters of random kinds/encodings; packet files: 1-3 files (30% of them ending in a truncated packet, which is no "
         "packet of the stream; sometimes with foreign prefix bytes skipped through the skip_header_bytes keyword), the definition as object / str path / Path, the files handed over as path / list / tuple / generator / iterator / map / Path list, 1-4 APIDs interleaved, values at encoding extremes "
@@ -147,7 +147,13 @@ def run(ctx):
                     f.write(render.render_doc(doc))
             files, stream_packets = [], []
             for fi in range(nfiles):
-                raws = [pb.build(f"APID_{rng.choice(apids)}")[0] for _ in range(rng.randrange(1, 9))]
+                # one packet in six carries spare bytes after its last parameter: the generator yields it (with a warning), so it is a row
+                raws = []
+                for _ in range(rng.randrange(1, 9)):
+                    delta = rng.choice([0, 0, 0, 0, 0, rng.choice([1, 2, 5])])
+                    raws.append(pb.build(f"APID_{rng.choice(apids)}", length_delta=delta)[0])
+                    if delta:
+                        ctx.count("packets.with_spare_bytes")
                 path = os.path.join(scratch, f"d{i}_f{fi}.bin")
                 tail = b""
                 if rng.random() < 0.3:
